@@ -432,6 +432,46 @@ def r11(ctx):
     ctx.floor(R, 2)
 
 
+def r13(ctx):
+    R = "C06-R13"
+    ctx.rule(R, "a retransmitted SYN / SYN-ACK carries the sequence number of the original: where the TCB is created (poll_connect, "
+                "accept_syn) the handshake segment goes out with seq = isn while snd_una := isn + 1, so emit_handshake must send "
+                "seq = snd_una - 1 - the same offset. A retransmission that is off by one makes the peer set rcv_nxt one too high: the "
+                "first data byte is acknowledged but dropped (`ello world`), or the handshake ACK never matches")
+    offs = {}
+    for fid in ("turmoil_net::kernel::tcp::poll_connect", "turmoil_net::kernel::tcp::accept_syn"):
+        b = ctx.body(R, fid)
+        if not b:
+            continue
+        seq = una = None
+        for bb, i, s in b.all_stmts():
+            r = s["r"]
+            if r["k"] == "agg" and r.get("adt") == "turmoil_net::kernel::packet::TcpSegment":
+                m = dict(zip(r["fields"], r["ops"]))
+                seq = linear(b, m["seq"])
+            if r["k"] == "agg" and r.get("adt") == "turmoil_net::kernel::socket::Tcb":
+                m = dict(zip(r["fields"], r["ops"]))
+                una = linear(b, m["snd_una"])
+        if seq and una and seq[0] == una[0]:
+            offs[fid] = seq[1] - una[1]
+        ctx.inst(R, f"{fid.rsplit('::', 1)[1]}:handshake-seq", bool(seq and una and seq[0] == una[0]), b.span,
+                 f"first handshake segment: seq = snd_una {offs.get(fid, 0):+d}" if fid in offs else "cannot relate the handshake segment's seq to snd_una (re-derive C06-R13)")
+    eh = ctx.body(R, "turmoil_net::kernel::tcp::emit_handshake")
+    if eh and offs:
+        got = None
+        for bb, i, s in eh.all_stmts():
+            r = s["r"]
+            if r["k"] == "agg" and r.get("adt") == "turmoil_net::kernel::packet::TcpSegment":
+                m = dict(zip(r["fields"], r["ops"]))
+                got = linear(eh, m["seq"])
+        want = set(offs.values())
+        ok = bool(got) and got[0] == ("field", T + "snd_una") and want == {got[1]}
+        ctx.inst(R, "emit_handshake:same-seq-as-original", ok, eh.span, f"retransmission: seq = snd_una {got[1]:+d}, as the original" if ok else
+                 f"emit_handshake retransmits the SYN / SYN-ACK with seq = {got}, the original went out with seq = snd_una {sorted(want)[0]:+d}: the peer's rcv_nxt is off by one - "
+                 "the stream loses its first byte without an error, or the handshake never completes after one lost SYN-ACK")
+    ctx.floor(R, 3)
+
+
 def r12(ctx):
     R = "C06-R12"
     ctx.rule(R, "the last ACK of a close handshake can be lost or late like any other packet: the side that reached Closed first must go on "
@@ -456,6 +496,8 @@ def r12(ctx):
 
 
 def run(ctx):
+    C13.r10(ctx, R="C06-R14")   # a connection with unacknowledged data / FIN never leaves the states that are retransmitted
+    r13(ctx)
     r12(ctx)
     r11(ctx)
     r10(ctx)
